@@ -337,3 +337,23 @@ def main(ctx):
     object_world(ctx, "several-binners", ["d1/C", "d2/C", "d1/py", "d3/py"], b_new, WOPS, b_do, lambda: [su],
                  depth=ctx.pick(4, 5), check=b_check,
                  state=lambda b: (dict(b.__dict__), dict(b)))
+
+    # ------------------------------------------------------------ call sequences
+    # several histogram(rev=True) results alive at once (mc/worlds.py call_sequences): hist / rev arrays that are
+    # views of a module-level scratch buffer would be overwritten by the next call
+    from mc.worlds import call_sequences
+
+    def seq_pool():
+        return dict(d1=np.array([0.0, 0.5, 1.0, 1.5, 2.0, 3.7, 1.0, 3.0]), d2=np.array([3.0, 1.0, 2.0, 2.0]), d3=np.array([1.0]))
+
+    SEQ_CALLS = [(eng, d, bk, bv) for eng in (True, False) for d in ("d1", "d2", "d3") for (bk, bv) in (("binsize", 1.0), ("nbin", 3))]
+
+    def seq_run(c, pool):
+        su.have_chist = c[0]
+        try:
+            h, rev = stat.histogram(pool[c[1]], rev=True, **{c[2]: c[3]})
+        finally:
+            su.have_chist = True
+        return [h, rev]
+
+    call_sequences(ctx, "call-sequences", seq_pool, SEQ_CALLS, seq_run, lambda: [su], depth=3, nodedup_depth=3, result_edits=True)
